@@ -53,16 +53,12 @@ def check_call(sizer, dh, equity, lev, rate, ws, ps):
         if (abs(q) + 1) * p <= abs(B) - 1 - tol:
             fails.append({'clause': 'C11.not_maximal', 'detail': {'asset': a, 'quantity': int(q), 'price': float(p),
                                                                   'after_cost_allocation': float(B)}, 'case': case})
-        # exact expectation (truncation toward zero twice) with boundary tolerance
-        tb = int(abs(B))                       # floor of |B|
-        want = int(Fraction(tb) / p)
-        near = (abs(abs(B) - round(abs(B))) <= tol) or (abs(Fraction(tb) / p - round(Fraction(tb) / p)) <= Fraction(1, 10**9))
-        if near and abs(q) != want:
-            amb += 1       # tolerance actually used
-        if abs(q) != want and not (near and abs(abs(q) - want) <= 1 + int(1 / p)):
-            fails.append({'clause': 'C11.truncation', 'detail': {'asset': a, 'quantity': int(q), 'expected_abs': want,
-                                                                 'price': float(p), 'after_cost_allocation': float(B)},
-                          'case': case})
+        # The two clauses above ARE the statement: affordable (a truncation, never a rounding up) and the largest such
+        # number "to within one currency unit".  The library reaches it by truncating the dollars, then the shares; a
+        # sizer that truncates only the shares lands in the same band (possibly one step higher) and is just as right,
+        # so no exact value is demanded.  Counted: how often the band admits more than one whole number.
+        if int(abs(B) / p) != int(max(abs(B) - 1, 0) / p):
+            amb += 1
         gross += abs(q) * p
     if not fails and gross > L * E * (1 + r) + Fraction(1, 10**6):
         fails.append({'clause': 'C11.gross_exposure', 'detail': {'gross': float(gross), 'bound': float(L * E * (1 + r))},
@@ -182,8 +178,9 @@ def run(tier, res, is_known):
                     2 if tier == 'quick' else 3))
     res.bounds = {'weights': WEIGHTS, 'asks': ASKS, 'equities': EQUITIES, 'leverages': LEVERAGES, 'rates': RATES,
                   'groups': len(its)}
-    res.assumptions += ['after-cost allocation B = A - f|A| (a cost enlarges a short); expected |q| = trunc(trunc|B| / p); '
-                        'results within 1e-9 of a truncation boundary accept the neighbours (boundary_ambiguous)']
+    res.assumptions += ['after-cost allocation B = A - f|A| (a cost enlarges a short); admissible |q|: |q| p <= |B| (affordable, '
+                        'so a truncation and never a rounding up) and (|q|+1) p > |B| - 1 (largest to within one currency unit); '
+                        'boundary_ambiguous counts the points where that band holds more than one whole number']
     product(group, its, res, is_known, label='sizing grid', sample_every=397)
     product(refusal, refusal_items(), res, is_known, label='refusal grid')
     product(wiring_refusal, [(via, bad) for via in ('qts', 'session') for bad in [0, 0.0, -0.0, -1.0]], res, is_known,
